@@ -110,6 +110,10 @@ func genProducer(r *rand.Rand, p *program, s *stage, limitV, limitBytes int, all
 		pad = 20 + r.Intn(200)
 	default:
 		pad = 1000 + r.Intn(3000) // a few dozen such lines overflow the 64 KiB pipe buffer
+		if r.Intn(3) == 0 {
+			// single lines around and beyond the 4096-byte buffers of line readers
+			pad = []int{4060, 4075, 4080, 4090, 4100, 8170, 8190, 12300, 20000}[r.Intn(9)] + r.Intn(12)
+		}
 		if nb > 0 && nb < 40 && r.Intn(2) == 0 {
 			nb = 40 + r.Intn(40)
 		}
@@ -910,6 +914,9 @@ func runOnce(c *mon.Case, p *program, code string) bool {
 		if written > 65536 {
 			bigBytes = true
 		}
+		if s.prodPad > 4050 && len(l.tried['b']) > 0 {
+			c.Count("stages_writing_lines_over_4k", 1)
+		}
 	}
 	c.Count("items_received", items)
 	if big {
@@ -939,7 +946,7 @@ func Spec() *mon.Spec {
 			{Name: "pipelines", Quick: 240, Thorough: 24000, Run: runPipeline, GoMaxProcs: 16, Timeout: 150 * time.Second},
 		},
 		HangViolation: true,
-		Floors: map[string]int{"distinct_nontrivial": 60, "complete_reads": 100, "early_exit_readers": 80, "early_exits_noticed_by_writer": 30,
+		Floors: map[string]int{"stages_writing_lines_over_4k": 5, "distinct_nontrivial": 60, "complete_reads": 100, "early_exit_readers": 80, "early_exits_noticed_by_writer": 30,
 			"items_received": 5000, "pipelines_beyond_channel_buffer": 35, "pipelines_beyond_pipe_buffer": 2, "pipelines_with_exception": 35,
 			"pipelines_with_several_exceptions": 5, "interleavings": 80},
 	}
